@@ -1219,7 +1219,7 @@ def c04():
 
 
 def features_for(col):
-    fs = ["dict", "dict-rle", "index-before", "v2", "type-v2-with-dph", "type-index-with-dph", "type-dict-with-dph",
+    fs = ["dict", "dict-rle", "dict-plain", "index-before", "v2", "type-v2-with-dph", "type-index-with-dph", "type-dict-with-dph",
           "codec-lzo", "codec-brotli", "codec-lz4", "codec-zstd", "codec-lz4raw",
           "enc-future-4", "enc-future-10", "enc-future-64"]      # 4 = BIT_PACKED as value encoding, 10 / 64 = ids newer than the vendored enum
     if col["gotype"] in ("int32", "int64", "uint32", "uint64", "float32", "float64"):
@@ -1300,6 +1300,7 @@ def c16():
     recs = export_records([(p.key, p.schema) for p in ok], 2, 12 if q else 40, ck.seed)
     words = [w for w in export_histories(5 if q else 7) if "a" in w]
     distinct = set()
+    comps_cache = {}
     for p in ok:
         rr = recs[p.key]["recs"]
         p.cases = layout_cases(p, rr, ck.seed, light=True)
@@ -1313,10 +1314,32 @@ def c16():
             h = history_key(p, c)
             if c["page"] < 1000 or h.count("w") > 1:
                 distinct.add((h, c["page"], c["codec"]))
+        # conformant files of other writers: optional header fields (crc on some pages only, statistics subsets, unknown fields),
+        # other page splits, footers with optional fields and a page-index region
+        if p.key.startswith("fixed:") or p.key.startswith("hist:"):
+            comps = comps_cache.setdefault("c", export_comps(4))
+            cyc = rec_cycle(rr, ck.seed + 3)
+            for fi in range(6 if q else 30):
+                n = 1 + fi % 4
+                fc = foreign_case(ck.rng, [next(cyc) for _ in range(n)], len(p.cols), comps, {"rgsplit": [n]} if fi % 2 else None)
+                fc["extras"] = fi % 3 != 2
+                for col in fc["cols"]:
+                    col["extras"] = fi % 3 != 1
+                    col["stats"] = True
+                    if fi % 2 == 0:
+                        col["pages"] = [[1] * k for k in fc["rgsplit"]]      # one-record pages: several pages per chunk
+                    # no zero-value pages here: PageHeadersAtOffset(offset, n) walks until n values are covered, so a trailing
+                    # empty page cannot be reached by count - a limit of the API's contract, not something to judge
+                    col["pages"] = [[x for x in pg if x > 0] for pg in col["pages"]]
+                p.cases.append({"page": 1000, "codec": "snappy", "poff": ck.rng.randrange(16), "ops": [], "foreign": fc, "intro": True})
+                ck.add("evaluations")
+                ck.add("foreign_files")
+                distinct.add((p.key, "foreign", fi))
     ck.cov["distinct_nontrivial"] = len(distinct)
     ck.cov["rule"] = ("every file written by the programs of F, the history schemas (every Add/Write history up to the bound) and programs of the bounded grammar "
                       "in four layouts x codecs: ReadMetaData, PageHeaders and PageHeadersAtOffset (from every chunk offset with its value count and from "
-                      "EVERY page offset with the remaining count) compared by TLC with the independent footer decode and page walk; non-trivial = more than "
+                      "EVERY page offset with the remaining count, and call sequences on one reader) compared by TLC with the independent footer decode and "
+                      "page walk; the same for conformant foreign files (crc on some pages only, statistics subsets, unknown fields, page-index region); non-trivial = more than "
                       "one page per chunk or more than one row group")
     ck.cov["exhaustive"] = False
     fdir = os.path.join(__import__("vlib").WORK, "c16files")
@@ -1370,7 +1393,8 @@ def cli_hdr(h):
     import base64
     d = h.get("data_page_header")
     e = {"type": en("ptype", h.get("type")), "ulen": h.get("uncompressed_page_size", -1), "clen": h.get("compressed_page_size", -1), "nvals": -1, "enc": -1,
-         "denc": -1, "renc": -1, "hasstats": False, "nullcount": -1, "min": "", "max": "", "hasmin": False, "hasmax": False}
+         "denc": -1, "renc": -1, "hasstats": False, "nullcount": -1, "min": "", "max": "", "hasmin": False, "hasmax": False,
+         "hascrc": "crc" in h, "crc": h.get("crc", 0)}
     if d:
         e.update(nvals=d.get("num_values", -1), enc=en("enc", d.get("encoding")), denc=en("enc", d.get("definition_level_encoding")),
                  renc=en("enc", d.get("repetition_level_encoding")))
@@ -1484,6 +1508,15 @@ def c13():
             ck.add("evaluations")
             if len(sch) >= 2:
                 distinct.add((p.key, json.dumps(sch), tuple(kinds), si % 2))
+        # writers configured from ONE options slice (same page size and codec, NewParquetWriter(w, opts...)): the slice has spare
+        # capacity, so a writer that appends to it writes into memory the other writers' option lists share
+        for si, sch in enumerate(pick[:12 if q else 60]):
+            codec, page = CODECS[si % 3], 1 + si % 3
+            insts = [dict(inst(p, cyc, "w", codec, page, 5), sharedopts=True), dict(inst(p, cyc, "w", codec, page, 4), sharedopts=True)]
+            p.cases.append({"page": 2, "codec": "snappy", "poff": 0, "ops": [], "sched": {"insts": insts, "schedule": sch, "prior": "clean"}})
+            ck.add("evaluations")
+            ck.add("shared_options_schedules")
+            distinct.add((p.key, json.dumps(sch), "sharedopts"))
         # a writer whose destination starts failing at its k-th call, next to a healthy writer or reader: before it, after it has
         # written a row group, and interleaved (error paths must not leave shared state behind)
         ks = list(range(1, 12)) + ck.rng.sample(range(12, 60), 4 if q else 20)
@@ -1981,6 +2014,12 @@ def c14():
             gf = excl_field(h)
             kids.insert(pos, {"excl": True, "gofield": gf})
             (decos if [path, pos] in run_excl else unsampled).append((p, f, "excl %s at %s/%d" % (gf, path, pos)))
+        # an EMBEDDED struct that is itself excluded (anonymous field tagged parquet:"-"): one site per base
+        if excl:
+            path, pos = sorted(excl, key=lambda x: zlib.crc32(("%s|embexcl|%s" % (p.key, x)).encode()))[0]
+            f = copy.deepcopy(p.forest)
+            at_path(f, path).insert(pos, {"excl": True, "gofield": "Other `parquet:\"-\"`"})
+            decos.append((p, f, "excluded embedded struct Other at %s/%d" % (path, pos)))
         for (path, start, ln) in emb:
             f = copy.deepcopy(p.forest)
             kids = at_path(f, path)
